@@ -82,7 +82,26 @@ def step_compare(run, d, world, op, hist):
             if listed != want:
                 run.fail('pairs listed in the conflict message of %r' % (op,), listed, want, hist + [line, rq], {'message': res[1]})
     if got != ans:
-        run.fail('after %r' % (op,), got, ans, hist + [line], {'state before': before})
+        reqs, note = hist + [line], {'state before': before}
+        if len(hist) > 1:
+            # try to reproduce from a fresh definition holding the state before the step: a two-line replay
+            try:
+                from concepts import Definition
+                t = defs.triple_of_state(before)
+                setup = defs.dnew_line(0, *t)
+                d2 = Definition(*t)
+                drv.ask(setup)
+                r2 = defs.apply_op(d2, op, world)
+                a2 = drv.ask(line)
+                g2 = ('ok %s %s' % (defs.ret_str(r2[1]), defs.state(d2))) if r2[0] == 'ok' else '%s %s' % (r2[0], defs.state(d2))
+                if g2 != a2:
+                    reqs, got, ans = [setup, line], g2, a2
+                    note['shrunk'] = 'reproduced from a fresh definition of the state before the step (history of %d steps dropped)' % (len(hist) - 1)
+                else:
+                    note['shrunk'] = 'not reproducible from a fresh definition of the same triple: the history matters'
+            except Exception as e:      # the shrinker must never mask the finding
+                note['shrunk'] = 'shrinker failed: %r' % (e,)
+        run.fail('after %r' % (op,), got, ans, reqs, note)
     no, npr = len(d.objects), len(d.properties)
     shape = tuple(d.shape)
     if shape != (no, npr):
@@ -155,7 +174,21 @@ def run(run):
             d = Definition(so, sp, sb)
             hist = [defs.dnew_line(0, so, sp, sb)]
         drv.ask(hist[0])
+        parked = []
         for stepno in range(40):
+            if rng.random() < .06:
+                # fork: go on editing an independent equal definition; the one left behind must keep its triple for good
+                import copy
+                how = rng.choice(['copy()', 'union(empty)', 'd | empty', 'deepcopy', 'Definition(*d)'])
+                with guard(run, lambda: 'fork by %s after history %r' % (how, hist), lambda: hist):
+                    old = d
+                    d = {'copy()': lambda: old.copy(), 'union(empty)': lambda: old.union(Definition()),
+                         'd | empty': lambda: old | Definition(), 'deepcopy': lambda: copy.deepcopy(old),
+                         'Definition(*d)': lambda: Definition(*old)}[how]()
+                    if defs.state(d) != defs.state(old) or d is old:
+                        run.fail('%s of a definition is not an equal, distinct definition' % how, defs.state(d), defs.state(old), hist)
+                    parked.append((how, old, defs.state(old)))
+                run.count('fork: ' + how)
             k = rng.randrange(17)
             ro, rp = rng.choice(big_o), rng.choice(big_p)
             cur_o, cur_p = list(d.objects) or big_o, list(d.properties) or big_p
@@ -201,5 +234,8 @@ def run(run):
                 before = defs.state(d)
                 step_compare(run, d, world, op, hist)
             hist.append(defs.op_line(0, op))
+            for how, old, st in parked:
+                if defs.state(old) != st:
+                    run.fail('a definition left behind by %s changed when its successor was edited with %r' % (how, op), defs.state(old), st, hist)
             run.case('|'.join(hist[-3:]) + before, True)
             run.count(op[0])
